@@ -26,7 +26,7 @@ MCTexts == ${Texts}
 MCSizes == ${Sizes}
 
 View == sv
-Obs == [m |-> MatchSet(b), keys |-> TrieKeys(b.t), dnil |-> b.dnil, tnil |-> b.t.nil,
+Obs == [m |-> MatchSet(b), keys |-> TrieKeys(b.t), dnil |-> FALSE, tnil |-> b.t.nil,
         n |-> [d |-> Cardinality(b.d), s |-> KeyCount(b.t), k |-> Len(b.k), r |-> Len(b.r)]]
 \* The labelled state graph: one EDGE line per transition (states and action only: primed expressions
 \* are evaluated without caching, so the observation is not computed here) and one STATE line per
